@@ -288,13 +288,27 @@ class Interp:
                     return sympy.Function(name)(*args)  # symbolic evaluation: the conversion stays an uninterpreted term
                 raise Flow("raise", f"{type(exc).__name__}({str(exc)!r})", node) from None
         if name in ("range", "enumerate", "zip", "min", "max", "sum", "sorted", "list", "tuple", "reversed", "round") \
-                and name not in self.env and not node.keywords:
-            args = [self.ev(a) for a in node.args]
+                and name not in self.env and all(k.arg in ("strict", "start", "reverse", "default") for k in node.keywords):
+            args = []
+            for a in node.args:
+                if isinstance(a, ast.Starred):
+                    seq_ = self.ev(a.value)
+                    if isinstance(seq_, Unknown):
+                        return Unknown(name)
+                    args.extend(list(seq_))
+                else:
+                    args.append(self.ev(a))
+            kws = {k.arg: self.ev(k.value) for k in node.keywords}
+            if name == "zip" and kws.get("strict") and len({len(list(a)) for a in args if not isinstance(a, Unknown)}) > 1:
+                raise Flow("raise", "ValueError('zip() arguments have different lengths')", node)
+            kws.pop("strict", None)
+            if name == "enumerate" and "start" in kws:
+                args.append(kws.pop("start"))
             if any(isinstance(a, Unknown) for a in args):
                 return Unknown(name)
             try:
                 res = {"range": range, "enumerate": enumerate, "zip": zip, "min": min, "max": max, "sum": sum, "sorted": sorted,
-                       "list": list, "tuple": tuple, "reversed": reversed, "round": round}[name](*args)
+                       "list": list, "tuple": tuple, "reversed": reversed, "round": round}[name](*args, **kws)
             except (TypeError, ValueError) as exc:
                 raise AnalysisError(f"guard language: cannot evaluate {U(node)[:60]!r}: {exc}") from exc
             if name in ("range", "enumerate", "zip", "reversed"):
@@ -385,6 +399,12 @@ class Interp:
             return  # imported names are resolved by the call hooks
         elif isinstance(st, ast.Delete):
             self.trace.append(("del", U(st), st))
+        elif isinstance(st, (ast.With, ast.AsyncWith)) and self.loop_hook is not None:
+            for item in st.items:
+                ctx = self.ev(item.context_expr)  # the context manager model is its own __enter__ result; __exit__ has no modelled effect
+                if item.optional_vars is not None:
+                    self.store(item.optional_vars, ctx, st)
+            self.run(st.body)
         elif isinstance(st, ast.Try) and self.loop_hook is not None:
             try:
                 try:
